@@ -167,8 +167,8 @@ again in plain mode. -/
 
 inductive Mode where
   | plain
-  | fg (i : Nat) (set : Bool)     -- inside `context.fg = self.getInt()`
-  | bg (i : Nat) (set : Bool)     -- inside `context.bg = self.getInt()`
+  | fg (i : Nat) (set : Bool) (n : Nat)     -- inside `context.fg = self.getInt()`, `n` digits read
+  | bg (i : Nat) (set : Bool) (n : Nat)     -- inside `context.bg = self.getInt()`
 deriving DecidableEq, Repr
 
 structure PState where
@@ -189,35 +189,34 @@ def plainStep (st : PState) (c : Char) : PState :=
   else if c = Gen.reverseChar then ({ st with ctx := { st.ctx with reverse := !st.ctx.reverse } }).bump
   else if c = Gen.underlineChar then ({ st with ctx := { st.ctx with underline := !st.ctx.underline } }).bump
   else if c = Gen.resetChar then { st with ctx := {} }
-  else if c = Gen.colorChar then { st with mode := .fg 0 false }
+  else if c = Gen.colorChar then { st with mode := .fg 0 false 0 }
   else st
 
 def setFg (st : PState) (v : Option Nat) : PState := { st with ctx := { st.ctx with fg := v }, mode := .plain }
 def setBg (st : PState) (v : Option Nat) : PState := { st with ctx := { st.ctx with bg := v }, mode := .plain }
 
+/-- a digit continues the number being read when fewer than `colorDigits` digits were read and the value
+stays below `colorLimit`; otherwise the number is complete and the digit is text -/
+def continues (i n : Nat) (c : Char) : Bool :=
+  isDigit c && decide (n < Gen.colorDigits) && decide (i * Gen.colorBase + digitVal c < Gen.colorLimit)
+
 def step (st : PState) (c : Char) : PState :=
   match st.mode with
   | .plain => plainStep st c
-  | .fg i set =>
-    if isDigit c then
-      let j := i * Gen.colorBase + digitVal c
-      if Gen.colorLimit ≤ j then plainStep (setFg st (optOf i set)).bump c
-      else { st with mode := .fg j true }
-    else if c = ',' then { setFg st (optOf i set) with mode := .bg 0 false }
+  | .fg i set n =>
+    if continues i n c then { st with mode := .fg (i * Gen.colorBase + digitVal c) true (n + 1) }
+    else if c = ',' then { setFg st (optOf i set) with mode := .bg 0 false 0 }
     else plainStep (setFg st (optOf i set)).bump c
-  | .bg i set =>
-    if isDigit c then
-      let j := i * Gen.colorBase + digitVal c
-      if Gen.colorLimit ≤ j then plainStep (setBg st (optOf i set)).bump c
-      else { st with mode := .bg j true }
+  | .bg i set n =>
+    if continues i n c then { st with mode := .bg (i * Gen.colorBase + digitVal c) true (n + 1) }
     else plainStep (setBg st (optOf i set)).bump c
 
 /-- end of input while a colour is being read -/
 def finish (st : PState) : PState :=
   match st.mode with
   | .plain => st
-  | .fg i set => (setFg st (optOf i set)).bump
-  | .bg i set => (setBg st (optOf i set)).bump
+  | .fg i set _ => (setFg st (optOf i set)).bump
+  | .bg i set _ => (setBg st (optOf i set)).bump
 
 /-- `p = FormatParser(s); ctx = p.parse()` gives `(parse s).ctx` and `p.max_context_size = (parse s).maxSize` -/
 def parse (s : Str) : PState := finish (s.foldl step {})
